@@ -47,6 +47,8 @@ pub fn number_ref_into_usize(n: &SimpleNumber) -> (r: usize)
 //@@EXTRACT struct data/src/data/iterators.rs DataIndexIterator pubfields=1
 //@@EXTRACT struct data/src/data/iterators.rs CharListIterator pubfields=1
 //@@EXTRACT struct data/src/data/iterators.rs ByteListIterator pubfields=1
+//@@EXTRACT enum traits/src/data.rs SymbolListPart derive=none
+//@@EXTRACT struct data/src/data/iterators.rs SymbolListPartIterator pubfields=1
 
 // DataError (data/src/error.rs): external type, constructors assumed (message text and backtrace dropped)
 #[verifier::external_body]
@@ -477,6 +479,29 @@ pub fn verif_chars_of<T: BasicDataCustom>(window: &[BasicData<T>]) -> (r: Vec<ch
 pub fn verif_bytes_of<T: BasicDataCustom>(window: &[BasicData<T>]) -> (r: Vec<u8>)
     requires forall|k: int| 0 <= k < window@.len() ==> (#[trigger] window@[k]) is Byte
     ensures r@.len() == window@.len(), forall|k: int| 0 <= k < window@.len() ==> window@[k] == BasicData::<T>::Byte(#[trigger] r@[k])
+{ unimplemented!() }
+
+/// Stands for the `.iter().map(..).collect::<Result<Vec<_>, _>>()` chain of get_symbol_list_iter (rule R8-cut; the slicing
+/// expression stays in the verified text). Assumed: reads the window only.
+#[verifier::external_body]
+pub fn verif_symbol_parts_of<T: BasicDataCustom>(window: &[BasicData<T>]) -> (r: Result<Vec<SymbolListPart<u64, BasicNumber>>, DataError>)
+    ensures r matches Ok(v) ==> v@.len() == window@.len()
+{ unimplemented!() }
+
+/// Stands for `for item in list_iter { items.push(item); }` in get_concatenation_iter (a `for` over a user-defined iterator has no
+/// ghost iterator in vstd; rule R8-cut). Assumed: appends what the iterator has still to yield.
+#[verifier::external_body]
+pub fn verif_drain_into(list_iter: DataIndexIterator, items: &mut Vec<usize>)
+    ensures final(items)@ == old(items)@ + list_iter.rem()
+{ unimplemented!() }
+
+// slice::to_vec (assumed): an element-wise clone of the slice
+pub assume_specification<T: Clone> [<[T]>::to_vec] (s: &[T]) -> (r: Vec<T>)
+    ensures r@.len() == s@.len(), forall|i: int| 0 <= i < s@.len() ==> call_ensures(T::clone, (&s@[i],), #[trigger] r@[i]);
+
+/// Stands for `Extents::new(0.into(), BasicNumber::max_value())` (number literals of the opaque SimpleNumber; rule R8)
+#[verifier::external_body]
+pub fn verif_all_extents() -> (r: Extents<BasicNumber>)
 { unimplemented!() }
 
 impl DataIndexIterator {
